@@ -400,7 +400,9 @@ From LCM Require Import Proofs.C01_Solve Proofs.C01_SolveSpec.
 (* driver solve (Gen/EntryPoint.v, Gen/SolveBrute.v) instantiated with the per-period components of the period   *)
 (* theorem: the regenerated u_and_f of period t (last-period branch iff t = n-1) whose scalar value function is   *)
 (* the function representation on the array of period t+1 ITSELF (vf_arr), the product maps, the regenerated      *)
-(* compute_ccv and no-shock reduction.  For models without filter-restricted variables (states: discrete ones     *)
+(* compute_ccv, and the regenerated get_solve_discrete_problem (Gen/SolveDiscrete.v) applied to the variable_info   *)
+(* of the model (the reduction it selects and the choice axes it determines: Proofs/C18_AxesFilterFree.v).          *)
+(* For models without filter-restricted and without auxiliary variables (states: discrete ones                      *)
 (* first, then continuous ones, each group in declaration order):                                                  *)
 (* (a) the Bellman equation of the specification holds for the arrays lcm returns: in every period and at every   *)
 (*     state of the grid, the entry is the maximum over all admissible grid choices of utility + beta * expected   *)
@@ -410,6 +412,7 @@ Theorem C01_lcm_solve_satisfies_the_bellman_equation :
   forall (m : model) (p : params) (n : nat) (dch cch : list (string * grid)),
   let dst := dstates (states m) in let cst := cstates (states m) in
   Permutation (dch ++ cch) (choices m) -> NoDup (map fst (choices m)) -> NoDup (map fst (states m)) -> grids_valid (states m) ->
+  NoDup (map fst (dst ++ dch ++ cst ++ cch)) ->
   forall t ds cs, (t < n)%nat ->
   ((S t < n)%nat -> forall ds' dc cs' cc,
      in_bounds (sizes dst) ds' -> in_bounds (sizes dch) dc -> in_bounds (sizes cst) cs' -> in_bounds (sizes cch) cc ->
@@ -420,7 +423,7 @@ Theorem C01_lcm_solve_satisfies_the_bellman_equation :
   in_bounds (sizes dst) ds -> in_bounds (sizes cst) cs ->
   veq (get VUndef (nth t (code_solve m p n dch cch) (scalar VUndef)) (ds ++ cs))
       (value_at m p t (t =? n - 1)%nat (fun idx => VFin (next_table m p n dch cch t idx)) (env_of_idx dst ds ++ env_of_idx cst cs)%list).
-Proof. intros m p n dch cch dst cst H1 H2 H3 H4 t ds cs. exact (code_solve_satisfies_the_bellman_equation m p n dch cch H1 H2 H3 H4 t ds cs). Qed.
+Proof. intros m p n dch cch dst cst H1 H2 H3 H4 H5 t ds cs. exact (code_solve_satisfies_the_bellman_equation m p n dch cch H1 H2 H3 H4 H5 t ds cs). Qed.
 Print Assumptions C01_lcm_solve_satisfies_the_bellman_equation.
 
 (* (b) hence, by backward induction over the periods, EVERY entry of EVERY array lcm's solve returns is the entry   *)
@@ -430,6 +433,7 @@ Print Assumptions C01_lcm_solve_satisfies_the_bellman_equation.
 Theorem C01_lcm_solve_is_the_specifications_solve :
   forall (m : model) (p : params) (dch cch : list (string * grid)),
   Permutation (dch ++ cch) (choices m) -> NoDup (map fst (choices m)) -> NoDup (map fst (states m)) -> grids_valid (states m) ->
+  NoDup (map fst (dstates (states m) ++ dch ++ cstates (states m) ++ cch)) ->
   (forall t, (S t < n_periods m)%nat -> forall ds dc cs cc,
      in_bounds (sizes (dstates (states m))) ds -> in_bounds (sizes dch) dc -> in_bounds (sizes (cstates (states m))) cs -> in_bounds (sizes cch) cc ->
      evaluates_at m p (fun _ => 0%Q) (spec_env t (dstates (states m)) dch (cstates (states m)) cch ds dc cs cc)) ->
@@ -452,6 +456,7 @@ Example C01_solve_nonvacuous :
   let cch := [("c", GLin 0 2 3)] in
   Permutation ([] ++ cch) (choices step_model) /\ NoDup (map fst (choices step_model)) /\
   NoDup (map fst (states step_model)) /\ grids_valid (states step_model) /\
+  NoDup (map fst (dstates (states step_model) ++ [] ++ cstates (states step_model) ++ cch)) /\
   evaluates_in_all_periodsb step_model solve_params [] cch = true /\
   utility_defined_everywhereb step_model solve_params 2 [] cch = true /\
   spec_finite_everywhereb step_model solve_params = true /\
@@ -468,5 +473,6 @@ Proof.
   split; [repeat constructor; simpl; intuition discriminate|].
   split; [repeat constructor; simpl; intuition discriminate|].
   split; [repeat constructor; vm_compute; reflexivity|].
+  split; [repeat constructor; simpl; intuition discriminate|].
   repeat split; vm_compute; reflexivity.
 Qed.
